@@ -13,14 +13,14 @@ from sim import kernel
 CHECK = os.path.join(kernel.VERIF_DIR, "check.py")
 
 
-def _digests(prop, lo, hi, workers, hashseed, setarch=True, chunk=None):
+def _digests(prop, lo, hi, workers, hashseed, setarch=True, chunk=None, part=0):
   env = dict(os.environ)
   env.pop("VERIF_PINNED", None)
   env["PYTHONHASHSEED"] = str(hashseed)
   if not setarch:
     env["VERIF_NO_SETARCH"] = "1"
   cmd = [sys.executable, CHECK, "digests", prop, str(lo), str(hi),
-         "--workers", str(workers)]
+         "--workers", str(workers), "--part", str(part)]
   if chunk:
     cmd += ["--chunk", str(chunk)]
   p = subprocess.run(cmd, capture_output=True, text=True, env=env, timeout=3600)
@@ -40,16 +40,20 @@ def determinism(props, n=200):
     except ImportError:
       print("determinism %s: engine not built yet, skipped" % prop)
       continue
-    t0 = time.time()
-    a = _digests(prop, 0, n, 16, 0, True)
-    b = _digests(prop, 0, n, 1, 4242, False, chunk=max(1, n // 3))
-    c = _digests(prop, 0, n, 5, 977, True, chunk=7)
-    diff = [i for i, (x, y, z) in enumerate(zip(a, b, c)) if not (x == y == z)]
-    ok = not diff and len(a) == len(b) == len(c) == n
-    print("determinism %s: %d runs x 3 configurations, %d differing%s (%.0fs)" % (
-        prop, n, len(diff), "" if ok else " FIRST=%s" % diff[:5], time.time() - t0))
-    if not ok:
-      bad += 1
+    from sim import driver as _d
+    for part in range(len(_d.PROPS[prop])):
+      t0 = time.time()
+      a = _digests(prop, 0, n, 16, 0, True, part=part)
+      b = _digests(prop, 0, n, 4, 4242, False, chunk=max(1, n // 3), part=part)
+      c = _digests(prop, 0, n, 5, 977, True, chunk=7, part=part)
+      diff = [i for i, (x, y, z) in enumerate(zip(a, b, c)) if not (x == y == z)]
+      ok = not diff and len(a) == len(b) == len(c) == n
+      print("determinism %s[%s]: %d runs x 3 configurations, %d differing%s (%.0fs)" % (
+          prop, _d.PROPS[prop][part][0], n, len(diff),
+          "" if ok else " FIRST=%s" % diff[:5], time.time() - t0))
+      sys.stdout.flush()
+      if not ok:
+        bad += 1
   return 2 if bad else 0
 
 
